@@ -307,7 +307,68 @@ def mul(V, kind):
     return _pair_eq(V, q, shift, x64, saved, "mul rescale: ")
 
 
-FUNCS = {"qs": qs, "rqs": rqs, "classes": classes, "pool": pool, "pool_rescale": pool_rescale, "addsub": addsub, "simple_addsub": simple_addsub, "mul": mul}
+class _NPD:
+    """numpy stand-in for weight_compressor: np.double on a float proxy is the exact widening to binary64"""
+
+    @staticmethod
+    def double(x=0.0):
+        if isinstance(x, SFloat):
+            return SFloat(fp.as_f64(x), "f64")
+        return np.double(x)
+
+    float64 = double
+
+    def __getattr__(self, n):
+        return getattr(np, n)
+
+
+def prep_scales(V, ifm_dtype, op_type, orig_type):
+    """weight_compressor._prepare_scale_and_bias: the per-channel scale handed to quantise_scale is the TFLite derivation for the
+    ORIGINAL operator: convolutions (also a 1x1 convolution that was re-typed to FullyConnected) multiply in double,
+    genuine FullyConnected and uint8 operators form the input*filter product in float first.  Symbolic float32 scales."""
+    import ethosu.vela.weight_compressor as wc
+    from ethosu.vela.data_type import DataType
+    from ethosu.vela.operation import Op, RoundingMode
+    from ethosu.vela.tensor import TensorPurpose, TensorFormat
+
+    s_i, s_w, s_o = _scale_inputs(V, "f32")
+    dt = {"int8": DataType.int8, "uint8": DataType.uint8, "int16": DataType.int16}[ifm_dtype]
+
+    class _T:
+        pass
+
+    tens = _T()
+    q = lambda sc: type("Q", (), {"scale_f32": sc})()  # noqa
+    op = type("OpS", (), {})()
+    op.type, op.original_type = Op[op_type], Op[orig_type]
+    op.bias, op.outputs = tens, [object()]
+    op.inputs = [type("I", (), {"dtype": dt})(), type("W", (), {"quantization": q(s_w)})()]
+    op.get_input_quantization = lambda: q(s_i)
+    op.get_output_quantization = lambda: q(s_o)
+    op.rounding_mode = RoundingMode.TFLite
+    tens.purpose, tens.format, tens.consumer_list, tens.values, tens.dtype, tens.name = TensorPurpose.FeatureMap, TensorFormat.NHWC, [op], [7], DataType.int32, "bias"
+    stub = _QSStub(wc.quantise_scale)
+    saved = (wc.quantise_scale, wc.reduced_quantise_scale)
+    if V.symbolic:
+        wc.quantise_scale = stub
+        wc.reduced_quantise_scale = stub
+    try:
+        with core.shims((wc, {"np": _NPD(), "hasattr": lambda o, n: False if isinstance(o, SFloat) and n == "__iter__" else hasattr(o, n)})):
+            scales, biases = wc._prepare_scale_and_bias(None, tens, None)
+    finally:
+        wc.quantise_scale, wc.reduced_quantise_scale = saved
+    di, dw, do = _d(s_i), _d(s_w), _d(s_o)
+    RNE = fp.RNE
+    if ifm_dtype == "uint8" or orig_type == "FullyConnected":
+        prod32 = z3.fpMul(RNE, fp.F(s_i), fp.F(s_w))
+        ref = z3.fpDiv(RNE, z3.fpToFP(RNE, prod32, fp.F64), do)
+    else:
+        ref = z3.fpDiv(RNE, z3.fpMul(RNE, di, dw), do)
+    got_q, got_s = scales[0]
+    return _pair_eq(V, got_q, got_s, ref, saved[0], "channel scale: ") + [("one scale per bias", len(scales) == len(biases))]
+
+
+FUNCS = {"prep_scales": prep_scales, "qs": qs, "rqs": rqs, "classes": classes, "pool": pool, "pool_rescale": pool_rescale, "addsub": addsub, "simple_addsub": simple_addsub, "mul": mul}
 
 
 def _windows(tier, seed):
@@ -340,6 +401,9 @@ def instances(tier, seed):
     for n in (1, 2, 3, 4, 9, 16, 49, 64, 256, 1024, 4096, 65536):
         for rb in range(-8, 9):
             out.append(dict(key="pool_rescale/%d/%d" % (n, rb), fn="pool_rescale", params=dict(n=n, rescale_bits=rb)))
+    for ifm_dtype, op_type, orig in (("int8", "Conv2DBias", "Conv2DBias"), ("int8", "FullyConnected", "Conv2DBias"), ("int8", "FullyConnected", "FullyConnected"),
+                                     ("uint8", "Conv2DBias", "Conv2DBias"), ("int16", "Conv2DBias", "Conv2DBias"), ("int8", "DepthwiseConv2DBias", "DepthwiseConv2DBias")):
+        out.append(dict(key="prep_scales/%s/%s/orig_%s" % (ifm_dtype, op_type, orig), fn="prep_scales", params=dict(ifm_dtype=ifm_dtype, op_type=op_type, orig_type=orig)))
     for kind in ("f32", "py"):
         for bits in (8, 16):
             for order in ("lt", "gt", "eq"):
